@@ -192,6 +192,13 @@ def run(tier='quick'):
                         'type throws database_inconsistency (PRAGMA table_info on a view whose base table lost a column '
                         'fails inside SQLite)', floor=2)
     _verify_translates(prog, chk, V9)
+    V11 = chk.rule('V11', 'every call of verify() examines the library as it is now: in each function that hands the library to '
+                          'a validator the call is unconditional (not under an if / loop / switch) and no return statement '
+                          'precedes it - no early exit on a remembered result (a schema cookie, a "verified" flag) - and the '
+                          'context objects hold no such memory (rule N1 of C10)', floor=2)
+    _verify_unconditional(prog, chk, V11)
+    from . import c10 as _c10
+    _c10.handles_stateless(prog, chk, V11)
     chk.assume('PRAGMA table_info / index_list / index_info and sqlite_master report what the catalog '
                'model derives from the DDL (the model is cross-validated here against expectation blocks '
                'that pass on real SQLite in the pinned suite)')
@@ -592,6 +599,60 @@ def _verify_translates(prog, chk, V9):
                               'the deviation' % short)
     if n < 2:
         raise AnalysisBroken('V9: fewer than two calls of a validator found (%d)' % n)
+
+
+def _verify_unconditional(prog, chk, rid):
+    n = 0
+    for f in prog.functions.values():
+        if f.is_pattern or f.body is None or not prog.in_repo(f.file) or '/schema/' in (f.file or ''):
+            continue
+        parent = {}
+        order = {}
+        for i, x in enumerate(walk(f.body)):
+            order[id(x)] = i
+            for c in children(x):
+                parent[id(c)] = x
+        for call in walk(f.body):
+            if call.get('kind') != 'CXXMemberCallExpr' or strip(children(call)[0]).get('name') != 'verify':
+                continue
+            recv = children(strip(children(call)[0]))
+            rt = (strip(recv[0]).get('type') or '') if recv else ''
+            if 'schema_creator_validator' not in rt:
+                continue
+            n += 1
+            short = f.qualname.replace('djinterop::engine::', '')
+            why = None
+            x = call
+            while id(x) in parent:
+                child, x = x, parent[id(x)]
+                k = x.get('kind')
+                if k in ('IfStmt', 'SwitchStmt', 'ConditionalOperator', 'CaseStmt', 'DefaultStmt') or \
+                        (k in ('WhileStmt', 'ForStmt', 'CXXForRangeStmt') and child is children(x)[-1]) or \
+                        k == 'LambdaExpr' or k == 'CXXCatchStmt':
+                    why = 'the call sits under a %s' % k
+                    break
+                if k == 'BinaryOperator' and x.get('opcode') in ('&&', '||') and child is not children(x)[0]:
+                    why = 'the call is the right operand of %s' % x['opcode']
+                    break
+            if why is None:
+                for r in walk(f.body):
+                    if r.get('kind') == 'ReturnStmt' and order[id(r)] < order[id(call)]:
+                        y, in_lambda = r, False
+                        while id(y) in parent:
+                            y = parent[id(y)]
+                            if y.get('kind') == 'LambdaExpr':
+                                in_lambda = True
+                        if not in_lambda:
+                            why = 'a return statement at %s precedes the call' % locstr(r)
+                            break
+            if why is None:
+                chk.ok(rid, '%s hands the library to the validator unconditionally' % short, locstr(call))
+            else:
+                chk.violation(rid, '%s|validator call can be skipped' % short, locstr(call),
+                              '%s: %s: verify() can return normally without having examined the library as it is now' % (
+                                  short, why))
+    if n < 2:
+        raise AnalysisBroken('%s: fewer than two calls of a validator found (%d)' % (rid, n))
 
 
 def _entry(prog, chk, V4):
